@@ -98,9 +98,23 @@ func (bp BundlePart) Load() (b bpv7.Bundle, err error) {
 
 // calcExpirationDate for a Bundle.
 func calcExpirationDate(b bpv7.Bundle) time.Time {
-	// TODO: check Bundle Age Block
-	return b.PrimaryBlock.CreationTimestamp.DtnTime().Time().Add(
-		time.Duration(b.PrimaryBlock.Lifetime) * time.Millisecond)
+	lifetime := time.Duration(b.PrimaryBlock.Lifetime) * time.Millisecond
+
+	if b.PrimaryBlock.CreationTimestamp.IsZeroTime() {
+		// A Bundle from a node without a clock has no meaningful creation time. Its remaining lifetime is the
+		// difference between its lifetime and its age so far, starting now.
+		var age time.Duration
+		if ageBlock, err := b.ExtensionBlock(bpv7.ExtBlockTypeBundleAgeBlock); err == nil {
+			age = time.Duration(ageBlock.Value.(*bpv7.BundleAgeBlock).Age()) * time.Millisecond
+		}
+
+		if age > lifetime {
+			age = lifetime
+		}
+		return time.Now().Add(lifetime - age)
+	}
+
+	return b.PrimaryBlock.CreationTimestamp.DtnTime().Time().Add(lifetime)
 }
 
 // bundlePartPath returns a path for a Bundle.
